@@ -688,3 +688,11 @@ func (p *Prog) SoleDef(fn *Fn, v types.Object) ast.Expr {
 	}
 	return nil
 }
+
+func isBoolType(t types.Type) bool {
+	if t == nil {
+		return false
+	}
+	b, ok := t.Underlying().(*types.Basic)
+	return ok && b.Info()&types.IsBoolean != 0
+}
